@@ -98,7 +98,12 @@ LOCAL = {
     'FooRec': ('Rec', 'record'), 'FooOpq': ('Opq', 'record'), 'FooUni': ('Uni', 'union'),
     'FooEn': ('En', 'enum'), 'FooFl': ('Fl', 'flags'), 'FooCb': ('Cb', 'callback'),
     'FooInt': ('Int', 'alias-int'), 'FooStr': ('Str', 'alias-str'),
+    # local typedefs OF const-qualified pointer types: typedef const char *FooName; etc.
+    'FooName': ('Name', 'alias-constptr'), 'FooGName': ('GName', 'alias-constptr'),
+    'FooConstRec': ('ConstRec', 'alias-constptr'), 'FooBytes': ('Bytes', 'alias-constptr'),
 }
+CONSTPTR_TARGETS = {'FooName': 'const char *', 'FooGName': 'const gchar *', 'FooConstRec': 'const FooRec *',
+                    'FooBytes': 'const guint8 *'}
 # typedefs of the (miniature) dependency namespaces: Namespace.Name
 FOREIGN = {
     'GObject': ('GObject.Object', 'class'), 'GCancellable': ('Gio.Cancellable', 'class'),
@@ -286,6 +291,8 @@ def transfer_return(sp):
         return 'none'
     if d >= 1 and sp.pointee_const():
         return 'none'                       # returned const value
+    if kind == 'alias-constptr' and d == 0:
+        return 'none'                       # typedef of a pointer to const: still a returned const value
     if d == 0:
         if kind in ('int', 'flt', 'ptr', 'alias-int') and (name is not None or kind == 'alias-int'):
             return 'none'                   # basic type (doc lists gpointer among the basic types)
